@@ -100,10 +100,11 @@ func VerifC15Transparent() {
 			dbg.SetBreakPoint("t", l)
 		}
 	}
-	finished := false
+	finished, ended := false, false
 	var res1 interface{}
 	var err1 error
 	go func() {
+		defer func() { ended = true }() // also when the thread is stopped (runtime.Goexit)
 		res1, err1 = ast.Runtime.Eval(vs, make(map[string]interface{}), 7)
 		finished = true
 	}()
@@ -113,12 +114,22 @@ func VerifC15Transparent() {
 		if finished {
 			break
 		}
+		// an idle, unfinished thread is a suspended one and is reported as such (otherwise no command could release it);
+		// break-on-error is on (the default): a failing call suspends the thread as well
+		ed := dbg.(*ecalDebugger)
+		ed.lock.RLock()
+		is := ed.interrogationStates[7]
+		ed.lock.RUnlock()
+		zz.Assert(is != nil && !is.running, "C15.idle-unfinished-thread-is-suspended")
 		c := zz.Choice("cmd"+c15Lbl[i], len(c15Conts))
 		dbg.Continue(7, c15Conts[c])
 	}
 	if !finished {
-		// bounded number of commands used up: release the thread for good
+		// bounded number of commands used up: stopping all threads releases every suspended one
+		zz.Quiesce()
 		dbg.StopThreads(0)
+		zz.Quiesce()
+		zz.Assert(ended, "C15.stopping-all-threads-releases-every-suspended-one")
 		return
 	}
 	zz.Reach("finished")
